@@ -97,7 +97,7 @@ pub fn g6_case(out: &mut Out, ag: &AG, rng: &mut Rng) {
         enc!(build_stable::<Undirected, i64>(ag, h, rng), "stable");
         enc!(build_map::<Undirected, i64>(ag, h, rng), "map");
         enc!(build_matrix::<Undirected, i64>(ag, h, rng), "matrix");
-        if h < 2 { enc!(build_csr::<Undirected, i64>(ag, h, rng), "csr"); }
+        enc!(build_csr::<Undirected, i64>(ag, h, rng), "csr");
     }
 }
 
